@@ -540,6 +540,10 @@ fn process_tags(
                         // exceeding a limit is final; retrying would re-run side effects
                         return gen_result.map(|_| None);
                     }
+                    if let Some(el) = &el {
+                        // not resolved (yet): elements referring to this one must wait too
+                        context.forget_element(el);
+                    }
                     if let (Some(el), Err(err)) = (el, gen_result) {
                         if let SvgdxError::MultiError(err_list) = err {
                             for (idx, (el, err)) in err_list {
